@@ -202,6 +202,9 @@ def main():
         OPS.update({k[3:]: v for k, v in vars(ops_more).items() if k.startswith('op_')})
     except ImportError:
         pass
+    if os.environ.get('SPIL_UNIVERSES'):
+        import ops_more
+        ops_more.UNIVERSES = json.load(open(os.environ['SPIL_UNIVERSES']))
     n = 0
     with open(sys.argv[1]) as fin, open(sys.argv[2], 'w') as fout:
         for line in fin:
